@@ -144,14 +144,15 @@ theorem C05_attrs_no_duplicates {d d' : Dom} {t : Id} {attrs : List Attr}
     (hc : Contract d (.addAttrsIfMissing t attrs)) (he : ((d.attrsOf t).map (·.name)).Nodup)
     (h : d.addAttrsIfMissing t attrs = .ok d') : ((d'.attrsOf t).map (·.name)).Nodup := by
   have : Dom.attrNamesNodup attrs = true := by
-    simp only [Contract, Dom.contractOk, Bool.and_eq_true] at hc; exact hc.2
+    simp only [Contract, Dom.contractOk, Bool.and_eq_true] at hc; exact attrNamesNodup_of_keys _ hc.2
   exact (C20_attrs_no_overwrite h he this).1
 
 /-- `create_element` with a duplicate-free list creates an element without repeated attribute names -/
 theorem C05_create_element_attrs {d : Dom} {name : QualName} {attrs : List Attr} {flags : ElementFlags}
     (hc : Contract d (.createElement name attrs flags)) :
     (((d.createElement name attrs flags).1.attrsOf (d.createElement name attrs flags).2).map (·.name)).Nodup := by
-  have hnd : (attrs.map (·.name)).Nodup := (attrNamesNodup_iff attrs).mp (by simpa [Contract, Dom.contractOk] using hc)
+  have hnd : (attrs.map (·.name)).Nodup :=
+    (attrNamesNodup_iff attrs).mp (attrNamesNodup_of_keys _ (by simpa [Contract, Dom.contractOk] using hc))
   unfold Dom.createElement
   split
   · simp only [Dom.attrsOf, alloc_id, dataOf_alloc]; simpa using hnd
